@@ -13,6 +13,11 @@
     encrypt|decrypt <payload> <id> <e> <pass> -> bytes | REJECT
     generate <mnemonic> <k> <n> <pass> <e> <id> m ρ…  -> cnt str… | REJECT
     recover_mnemonic <pass> cnt str…         -> str | REJECT
+    share_reser <str>                        -> str str | REJECT      (s = Share.parse(m); s.mnemonic(); s.mnemonic())
+    ss_history n str… k op…                  -> k' answers | REJECT   (ONE ShareSet object built from the n share
+                                                mnemonics; op = `R <pass>` recover(pass) -> bytes | RAISED, or
+                                                `S n str…` obj.shares = [Share.parse(m) …] (no answer); REJECT when
+                                                the constructor or a parse raises)
   Insufficient randomness answers bad-op (a harness error).
 -/
 import Buidl.Drv.Proto
@@ -41,6 +46,21 @@ def onePy : List String → Option (PyStr × List String)
 
 def fmtPoints (l : ShareData) : String :=
   String.intercalate " " (toString l.length :: l.map fun (i, b) => s!"{i} {fmtBytes b}")
+
+/-- parse `k op…` of ss_history -/
+def parseSsOps (wl : WordList) : Nat → List String → Option (Option (List SsOp) × List String)
+  | 0, ts => some (some [], ts)
+  | k + 1, "R" :: pw :: ts => do
+    let pw ← parseBytes pw
+    let (r, ts) ← parseSsOps wl k ts
+    pure (r.map (SsOp.recover pw :: ·), ts)
+  | k + 1, "S" :: ts => do
+    let (ms, ts) ← parseCounted onePy ts
+    let (r, ts) ← parseSsOps wl k ts
+    match mapM? (Share.parse wl) ms with
+    | none => pure (none, ts)            -- a parse raises: the whole history is REJECT
+    | some shares => pure (r.map (SsOp.setShares shares :: ·), ts)
+  | _, _ => none
 
 def kdf := Hash.pbkdf2HmacSha256
 def hm := Hash.hmacSha256
@@ -122,6 +142,32 @@ def handle : List String → String
       let (ms, tl) ← parseCounted onePy rest
       if tl ≠ [] then none else
       pure (orReject ((recoverMnemonic Hash.sha256 hm kdf b39 s39 ms pw).map fmtPy))
+  | ["share_reser", m] => optS do
+      let wl ← SLIP39?
+      let m ← parsePy m
+      pure <| orReject do
+        let s ← Share.parse wl m
+        let m1 ← s.mnemonic wl
+        let m2 ← s.mnemonic wl
+        pure s!"{fmtPy m1} {fmtPy m2}"
+  | "ss_history" :: rest => optS do
+      let wl ← SLIP39?
+      let (ms, rest) ← parseCounted onePy rest
+      match rest with
+      | [] => none
+      | k :: rest =>
+        let k ← parseNat k
+        let (ops, tl) ← parseSsOps wl k rest
+        if tl ≠ [] then none else
+        pure <| orReject do
+          let ops ← ops
+          let shares ← mapM? (Share.parse wl) ms
+          let o ← ShareSetObj.new shares
+          let outs := o.run hm kdf ops
+          pure (String.intercalate " " (toString outs.length :: outs.map fun a =>
+            match a with
+            | some b => fmtBytes b
+            | none => "RAISED"))
   | _ => BADOP
 
 def main : IO Unit := runDriver handle
